@@ -152,8 +152,14 @@ def cmp_out(a, b, case=None):
     if case is not None and len(a) == len(b):
         sc = float_scales(case, a, b)
     n = min(len(a), len(b))
+    amps = None
+    if case is not None and sc:
+        amps = getattr(float_scales, "amps", None)
     for i in range(n):
-        if not same_item(a[i], b[i], sc[i] if sc else 0.0):
+        _AMP[0] = amps[i] if amps and i < len(amps) else 1.0
+        ok = same_item(a[i], b[i], sc[i] if sc else 0.0)
+        _AMP[0] = 1.0
+        if not ok:
             return i
     return -1 if len(a) == len(b) else n
 
@@ -162,6 +168,52 @@ def same_item(p, q, scale=0.0):
     if p >= FMARK and q >= FMARK:
         return fsame(b2f(p - FMARK), b2f(q - FMARK), scale)
     return p == q
+
+
+def case_nodes(case):
+    """sorted (key in seconds, value) of an op-10 case (value = real part of the node)"""
+    i = 4
+    i += 1 + case[i]
+    i += 2
+    n = case[i]
+    i += 1
+    out = []
+    for _ in range(n):
+        key = case[i]
+        i += 1
+        kind = case[i]
+        i += 1
+        if kind == 0:
+            re_ = b2f(case[i])
+            i += 1
+        else:
+            nv = case[i]
+            i += 1
+            for _ in range(nv):
+                i += 1 + case[i]
+            re_ = b2f(case[i])
+            i += 1 + nv + (nv * nv if kind == 2 else 0)
+        out.append((key // NS, re_))
+    out.sort()
+    return out
+
+
+def extrapolation_factor(nodes, x):
+    """how much a look-up at x amplifies the rounding of its two node values: max(1, |w|, |1 - w|) * (1 + |ln y1| + |ln y2|) with w
+    the interpolation weight on the interval used (the first / last one outside the node range) - a look-up far beyond the
+    last node of closely spaced nodes multiplies last-bit differences by the distance measured in interval lengths"""
+    if len(nodes) < 2:
+        return 1.0
+    ks = [k for k, _ in nodes]
+    j = 0
+    while j < len(ks) - 2 and x > ks[j + 1]:
+        j += 1
+    (x1, y1), (x2, y2) = nodes[j], nodes[j + 1]
+    if x2 == x1:
+        return 1.0
+    w = (x - x1) / (x2 - x1)
+    lg = sum(abs(math.log(abs(y))) for y in (y1, y2) if y == y and abs(y) not in (0.0, float("inf")))
+    return max(1.0, abs(w), abs(1.0 - w)) * (1.0 + lg)
 
 
 def fsame(a, b, scale=0.0):
@@ -174,7 +226,11 @@ def fsame(a, b, scale=0.0):
         return False
     if ca != "fin":
         return True
-    return abs(a - b) <= 1e-9 * max(abs(a), abs(b)) + 1e-11 * scale + 1e-13
+    amp = _AMP[0]
+    return abs(a - b) <= (1e-9 + 4e-14 * amp) * max(abs(a), abs(b)) + 1e-11 * scale * max(1.0, 1e-3 * amp) + 1e-13
+
+
+_AMP = [1.0]      # extrapolation factor of the look-up the compared float belongs to (set by cmp_out)
 
 
 class _P:
@@ -220,10 +276,13 @@ def float_scales(case, a, b):
     """per output position: the tolerance scale of the number it belongs to (0 for non-floats / on any
     parse problem)"""
     sc = [0.0] * len(a)
+    float_scales.amps = None
     if case[0] != 10 or not a or a[0] != 0:
         return sc
     try:
         head, acts = split_case(case)
+        nodes = case_nodes(case)
+        amps = [1.0] * len(a)
         p = _P(a)
         p.nxt()
         groups = []
@@ -234,8 +293,10 @@ def float_scales(case, a, b):
                 if oc != 0:
                     continue
                 g = []
+                i0 = p.i
                 kind = _parse_number(p, g)
                 pos = g[0][0]
+                amp_here = extrapolation_factor(nodes, act[1])
                 if k == 6 and kind >= 1:
                     n1 = p.nxt()
                     for _ in range(n1):
@@ -247,6 +308,8 @@ def float_scales(case, a, b):
                             pos.append(p.i)
                             p.nxt()
                 groups.append(pos)
+                for q in pos:
+                    amps[q] = amp_here
             elif k == 1:
                 oc = p.nxt()
                 if oc == 0:
@@ -283,7 +346,9 @@ def float_scales(case, a, b):
             scale = max(m, s2 if math.isfinite(s2) else m)
             for i in pos:
                 sc[i] = scale
+        float_scales.amps = amps
     except (IndexError, ValueError, OverflowError):
+        float_scales.amps = None
         return [0.0] * len(a)
     return sc
 
